@@ -25,6 +25,14 @@ CHECKS = {
          "The package clock is an owned choice (overlay routes time.Now/Until/Since to the harness): every expiry of a 53-element catalogue around a fixed instant T (exact-schema instants incl. T-1s/T/T+1s, other date layouts, offsets, impossible dates, junk) is verified in both wrappers through both entry points on an otherwise accepting chain with a marker inspection; every sequence of 2-3 verifications with the clock at T-1h/T/T+1h checks that no instant is remembered between calls; four real-clock cases far from now show the shipped path reads the clock. accept <=> the reference says well-formed and future; on reject no inspection ran.",
          "Trusted: reference calendar arithmetic; overlay rewriter. Outside: instants not in the catalogue; clock reads hidden in dependencies.",
          "DESIGN.md §3 C06"),
+ "C05": ("bounded-exhaustive enumeration of single-point disagreements among counted links x layouts x uncounted links, each under every iteration order of the reference-link pick and counting loop (owned map-order seam)",
+         "Layouts of 1..3 steps, thresholds 1..3 with 0/1 surplus valid links, one of 11 single-point differences (path added/removed/renamed, digest, algorithm renamed/added) on any counted link, every subset of unsigned/unauthorised/tampered uncounted links carrying other artifacts, strict and permissive rules, both wrappers, are verified end-to-end under every permutation of the reference-link pick and the per-link loop (plus one order deviation elsewhere): any disagreement must reject in every order, agreement must accept with a summary carrying the requested name, the first step's materials and the last step's products, and uncounted links must not change verdict or summary.",
+         "Trusted: construction of the cases; overlay rewriter. Outside: multi-point disagreements, more than 4 links per step.",
+         "DESIGN.md §3 C05"),
+ "C10": ("deviation-bounded exhaustive exploration of map iteration orders of the real verifier + explicit-state BFS over histories of verifications on the same live objects (differential against freshly loaded copies)",
+         "On six generated chains x both wrappers: (1) every combination of iteration orders with <= 1 (thorough <= 2) deviations from the default, with all permutations at the loops the property's anchors name, must yield the same verdict and byte-identical canonical summary; (2) BFS over operation histories {V(), V(P=f), V(P=x), VDir(P=f)} to depth 3 (4) on the same in-memory layout/key objects: each result equals the result on freshly loaded copies and the caller-owned serialisation never changes; (3) the exported verification routines are called twice on the same in-memory maps.",
+         "Trusted: overlay rewriter (34/34 map ranges owned, reported per run). Outside: > 2 simultaneous order deviations; orders inside dependencies.",
+         "DESIGN.md §3 C10"),
  "C07": ("bounded-exhaustive enumeration of certificate chain shapes x constraint lists and of attribute-value x constraint products, against a constructive oracle (chain validity by construction + set-based constraint matcher)",
          "29 chain shapes (0-2 intermediates located in layout / from caller / missing, expired, not yet valid, foreign and same-subject roots, foreign chain whose intermediate the caller supplies, non-CA issuer, absent root, two roots) x 9 constraint lists are checked at Step.CheckCertConstraints and end-to-end through InTotoVerify on a certificate-signed link; each attribute (thorough: each pair) deviates from an all-wildcard constraint over 4 value lists x 11 constraint lists; 7 root constraints x valid/invalid chains. Everything is enumerated, certificates are real X.509 minted per run.",
          "Trusted: crypto/x509 for minting; constructive chain validity. Outside: >= 3 simultaneously deviating attributes, EKU restrictions.",
